@@ -57,11 +57,6 @@ class Runner:
             corr.nontrivial((sim.kind, tuple(e[2] for e in sim.events if e[1] != "env")[:60]))
             if sim.late and not sim.is_hid:
                 corr.bump("late-report-traces-not-sent-to-model")
-            elif sim.cfg.get("unsupported"):
-                # the Async model has no 'refused before anything happens' step: these traces are judged by the
-                # independent assertions only (mutex, units, results, lock free, nobody hangs / spins)
-                corr.bump("refused-length-traces-not-sent-to-model")
-                corr.count("traces(assertions only)", 1)
             else:
                 self.batch.append((cfg, sim))
             if len(self.batch) >= 200:
